@@ -1085,9 +1085,29 @@ func ruleCopyIso(c *Ctx) {
 			if ex, ok := a.Common().Args[1].(*ssa.Extract); ok && ex.Tuple == d.Value() && ex.Index == 0 {
 				ok1 = true
 			}
-			if ex, ok := d.Common().Args[0].(*ssa.Extract); ok && ex.Tuple == g.Value() && ex.Index == 0 {
-				ok2 = true
+			// the source: what get(from) found, or — on the from == "" branch — the node for
+			// the whole document (R-SELF decides that this one is built over the live root)
+			var srcOK func(v ssa.Value, depth int) bool
+			srcOK = func(v ssa.Value, depth int) bool {
+				if depth > 3 {
+					return false
+				}
+				switch x := v.(type) {
+				case *ssa.Extract:
+					return x.Tuple == g.Value() && x.Index == 0
+				case *ssa.Phi:
+					for _, e := range x.Edges {
+						if !srcOK(e, depth+1) {
+							return false
+						}
+					}
+					return true
+				case *ssa.Call:
+					return isWholeDocCall(x)
+				}
+				return false
 			}
+			ok2 = srcOK(d.Common().Args[0], 0)
 			if ok1 && ok2 {
 				l.add("R-COPYISO", b.Name, key, b.posOf(a), Discharged, "add(key, deepCopy(get(from))#0)", true)
 			} else if !ok1 {
@@ -1118,6 +1138,25 @@ func ruleCopyIso(c *Ctx) {
 			l.add("R-COPYISO", b.Name, key, b.posOf(r), v, why, true)
 		}
 	}
+}
+
+// isWholeDocCall: a call on a container (interface or concrete) that takes no
+// key and returns a node: the accessor for "the container itself".
+func isWholeDocCall(c *ssa.Call) bool {
+	args := callArgs(&c.Call)
+	if len(args) != 1 {
+		return false
+	}
+	n := derefNamed(args[0].Type())
+	if n == nil {
+		return false
+	}
+	switch n.Obj().Name() {
+	case "container", "partialDoc", "partialArray":
+	default:
+		return false
+	}
+	return isPtrToNamed(c.Type(), "lazyNode")
 }
 
 // freshNode: v is a *lazyNode built by this call from freshly allocated
